@@ -151,7 +151,7 @@ def run(ctx):
                         what = "a substituted copy is not registered"
                     elif any(Node.get_node_instance(x[0]) is not None for _, x in gen.nodes_of(orig) if x[1] == "references"):
                         what = "a discarded references node is still registered"
-                    elif any(id(o) in old_objs for n in _w(root) if n.id not in known for o in (n, n.attributes, n.extras, n.nsmap, n.children)):
+                    elif any(id(o) in old_objs for n in _w(root) if n.id not in known for o in (n, n.attributes, n.extras, n.children)):
                         what = "a substituted copy shares a mutable object (dict / children list) with a node of the original tree: the copies are not independent"
                     else:
                         errs_after = []
